@@ -127,6 +127,15 @@ CLASS_TEXT = {
 }
 
 
+def diff_window(want, got, width=110):
+    """the two dumps around their first difference"""
+    i = 0
+    while i < min(len(want), len(got)) and want[i] == got[i]:
+        i += 1
+    lo = max(0, i - 40)
+    return "want ...%s... got ...%s... (first difference at offset %d)" % (want[lo:lo + width], got[lo:lo + width], i)
+
+
 def fmt_prog(beh, upto):
     def one(s):
         o = s["o"]
@@ -331,7 +340,7 @@ def run(c):
         if cls == "readonly-mutator":
             detail = "mutator(s) " + op
         elif cls == "state":
-            detail = "var %s want %s got %s" % (m.get("var"), (m.get("want") or "")[:300], (m.get("got") or "")[:300])
+            detail = "var %s %s" % (m.get("var"), diff_window(m.get("want") or "", m.get("got") or ""))
         else:
             detail = m.get("panic") or ""
         what = "%s: %s [%s on %s; %d type(s): %s]; program: %s" % (
